@@ -207,15 +207,12 @@ theorem stops_renderNode (c : RCtx) (hc : IncOk c) : ∀ n : Node, StopsM (rende
       exact stopsM_loopRun _ _ _ _ _ _ _ (stops_renderBlockBody c hc body) _ (some _)
         (fun m h => by cases h; exact stops_renderBlockBody c hc els)
     · exact stopsM_loopRun _ _ _ _ _ _ _ (stops_renderBlockBody c hc body) _ none (fun _ h => by cases h)
-  | .cycle line group values => by
+  | .cycle line group v0 rest => by
     unfold renderNode
     refine stopsM_wrapFailAt _ _ (stopsM_bind (stopsM_getVar _) (fun lv => ?_))
     split
     · exact stopsM_fail _
-    · refine stopsM_bind (stopsM_setVar _ _) (fun _ => stopsM_bind ?_ (fun _ => stopsM_pure _))
-      split
-      · intro s; exact .panic _
-      · exact stopsM_write _
+    · exact stopsM_bind (stopsM_setVar _ _) (fun _ => stopsM_bind (stopsM_write _) (fun _ => stopsM_pure _))
   | .brk line => by unfold renderNode; exact stopsM_pure _
   | .cont line => by unfold renderNode; exact stopsM_pure _
   | .incl line args => by
